@@ -118,7 +118,7 @@ func (in *Interp) runInit(p *ssa.Package) {
 	}
 	w.inited[p] = true
 	path := p.Pkg.Path()
-	if !strings.HasPrefix(path, w.env.repoMod) && path != "github.com/bits-and-blooms/bitset" {
+	if !strings.HasPrefix(path, w.env.repoMod) {
 		return
 	}
 	// dependencies first (imports within the module)
@@ -173,7 +173,7 @@ func (in *Interp) call(fn *ssa.Function, args []Value, env []Value) Value {
 		// package initialiser: only the module under test, the harness runtime and bitset are initialised
 		if p := fnPkg(fn); p != nil {
 			path := p.Pkg.Path()
-			if !strings.HasPrefix(path, w.env.repoMod) && path != "github.com/bits-and-blooms/bitset" {
+			if !strings.HasPrefix(path, w.env.repoMod) {
 				return nil
 			}
 			if w.inited[p] && len(in.frames) > 0 && in.frames[len(in.frames)-1].fn.Name() == "init" {
@@ -461,7 +461,7 @@ func (in *Interp) indexAddr(fr *frame, ins *ssa.IndexAddr) Value {
 		if !w.decide(inb) {
 			panic(goPanic{"index out of range (symbolic index)"})
 		}
-		if n > 1 && n <= 64 {
+		if w.env.opts.symIdx && n > 1 && n <= 64 {
 			// keep the index symbolic: loads/stores through this pointer become ite-chains over the n elements
 			switch x := x.(type) {
 			case Slice:
